@@ -72,7 +72,14 @@ func checkC07(r *harness.Run) harness.Coverage {
 			}
 		}
 	}
-	run(litExprs, univ.Js(`null`, `{"a":1}`))
+	// a raw string and a JSON literal with the same source text are different values
+	for _, txt := range []string{"1", "true", "false", "null", "0", "[]", "{}", "1.5"} {
+		for _, op := range ops {
+			litExprs = append(litExprs, exprFromText("'"+txt+"' "+op+" `"+txt+"`"), exprFromText("`"+txt+"` "+op+" '"+txt+"'"))
+		}
+		litExprs = append(litExprs, exprFromText("['"+txt+"', `"+txt+"`, '"+txt+"']"), exprFromText("[`"+txt+"`, '"+txt+"']"), exprFromText("[?@ == `"+txt+"` || @ == '"+txt+"']"))
+	}
+	run(litExprs, univ.Js(`null`, `{"a":1}`, `[1, "1", true, "true", null, "null", 0, "0"]`))
 	// (3) nestings of two and three operators over a 12-value operand subset
 	maxTok := 5
 	if r.Thorough() {
